@@ -594,8 +594,10 @@ impl Cursor<'_> {
                 return (true, false);
             }
         }
+        // The version number ends at `;`, at whitespace or at a comment.
         let c = self.first();
-        if c != ';' && !is_whitespace(c) {
+        let comment_follows = c == '/' && matches!(self.second(), '/' | '*');
+        if c != ';' && !is_whitespace(c) && !comment_follows {
             return (false, false);
         }
         (true, true)
